@@ -102,6 +102,53 @@ theorem C10_as_was_partial (g : AGrammar) (ts : List SymType) (hr : hasRightVec 
     (h : eval (shapesFor .asWas g ts) t = .ok (some v)) : v.tokens = t.contentTokens (shapesFor .asWas g ts) :=
   eval_tokens _ (supported_of_no_right_vec g ts hr) t hw v h
 
+/-! ## `?=` assignments: "a token bound by a ?= assignment contributes only its presence"
+
+`C10_statement` above speaks about the texts of the regex-matched (content) tokens; it does not say anything about a
+`?=` assignment whose target has NO content (a string-match terminal): that symbol is no content token, and
+`C10_holds` stays exactly what it was. The presence clause of the property is the separate statement below. It is
+FALSE of /repo as it is (`is_bool` is recorded by the front-end and read by nothing): finding C10-N1, recorded. -/
+
+/-- The presence clause: every `?=`-bound symbol of a production of a reachable rule shows in the value built for
+that production as a member named by the assignment (whatever its type: a flag, or the text / value of the symbol). -/
+def C10_presence_statement (fx : Fixes) : Prop :=
+  ∀ (g : AGrammar) (ts : List SymType), symbolTypes fx g = some ts →
+  ∀ (i : Nat) (p : AProd), g.prods[i]? = some p → ntReach g p.nt = true →
+  ∀ (r : RSym) (l : String), r ∈ p.rhs → r.isBool = true → r.label = some l →
+    ∃ c, choiceOfProd g ts i p = some c ∧ l ∈ c.memberNames
+
+/-- the property as stated: content tokens in input order AND presence of `?=`-bound symbols -/
+def C10_full_statement (fx : Fixes) : Prop := C10_statement fx ∧ C10_presence_statement fx
+
+/-- **Finding C10-N1 (recorded).** `A: neg?=KA n=Num | KB pos?=Id m=Num;`: the choice of the first production has
+the single member `n` — `neg`, bound with `?=` to the keyword `KA`, is not there; its presence is lost. (`pos`,
+bound to the regex terminal `Id`, IS a member and carries the token text: more than its presence.) -/
+theorem C10_counterexample_bool_assignment_lost : ¬ C10_presence_statement Fixes.repo := by
+  intro h
+  have := h gBool (typesNow gBool) (by decide) 3 pNeg (by decide) (by decide) rNeg "neg"
+    (by decide) (by decide) (by decide)
+  revert this
+  decide
+
+/-- what the builder returns for `KA 1 KB x 3`: no trace of `neg`, the text of `pos` -/
+example : eval (shapesNow gBool) tBool
+    = .ok (some (.vec [.node "C1" [] [.node "AC1" ["n"] [.str "1"]],
+                       .node "C2" [] [.node "AC2" ["pos", "m"] [.str "x", .str "3"]]])) := by rfl
+
+theorem C10_counterexample_full_statement : ¬ C10_full_statement Fixes.repo :=
+  fun h => C10_counterexample_bool_assignment_lost h.2
+
+/-- the class predicate of the finding (driver `ast class`: `boollost=1`) holds of the witness -/
+example : hasLostBool gBool = true := by decide
+
+/-- **What does hold:** a `?=`- (or `=`-) bound symbol WITH content (regex terminal, nonterminal) is a member of the
+struct of its production, under the assignment's name (statement about `mkChoice`; `make_choices_name_unique` and
+`find_recursions` only rename choices / set Box flags). -/
+theorem C10_bool_assignment_with_content_kept (nt : String) (ntidx : Nat) (p : AProd) (r : RSym) (l : String)
+    (hr : r ∈ p.rhs) (hc : r.content = true) (hl : r.label = some l) :
+    l ∈ (mkChoice nt ntidx p).memberNames :=
+  named_content_is_member nt ntidx p r l hr hc hl
+
 /-- **Vectors in input order.** Left recursion (`A: A B`, also what `*`, `+` expand to) appends the new
 element after the elements collected so far; right recursion puts the new element in front (/repo as
 it is) — before the repair it appended the FIRST element LAST. -/
